@@ -155,10 +155,11 @@ def leaves(d):
         L.append({"type": t})
     L.append({"type": ["integer", "string"]})
     L.append({"type": ["number", "null"]})
-    L += [{"enum": [1]}, {"enum": [1, "a"]}, {"enum": [[1], {"a": 1}]}, {"enum": [0, None]}, {"enum": [{"a": 1, "b": "x"}]}]
+    L += [{"enum": [1]}, {"enum": [1, "a"]}, {"enum": [[1], {"a": 1}]}, {"enum": [0, None]}, {"enum": [{"a": 1, "b": "x"}]},
+          {"enum": [[{"a": 1, "b": 2}], 3]}, {"enum": [{"k": [{"a": 1, "b": 2}]}]}]
     if d != "4":
         L += [{"const": 1}, {"const": 1.0}, {"const": 0}, {"const": "a"}, {"const": {"a": 1}}, {"const": [1]},
-              {"const": None}, {"const": True}, {"const": {"a": 1, "b": "x"}}]
+              {"const": None}, {"const": True}, {"const": {"a": 1, "b": "x"}}, {"const": [{"a": 1, "b": 2}]}, {"const": [[{"a": 1, "b": 2}], 1.0]}]
     L += [{"minimum": 1}, {"maximum": 1}, {"minimum": 2.5}, {"maximum": 2.5}, {"minimum": 1.0},
           {"maximum": BIG}, {"minimum": BIG + 2}, {"minimum": BIG}, {"maximum": BIG + 2}]
     if d == "4":
@@ -502,10 +503,10 @@ BASE = [None, True, 0, 1, 1.0, 2.5, BIG + 1, "", "a", "ab", "\U0001F600", [], [1
         {"a": 1, "b": "x"}, {"b": 1}]
 NUM_EXTRA = [-1, 0.5, 1.5, 2, 3.0, 0.25, 5, BIG, BIG + 2, float(BIG), float(BIG + 2), BIG + 3, -0.0]
 STR_EXTRA = ["\U0001F600\U0001F600", "a\U0001F600", "aab", "ba", "b", "é"]
-ARR_EXTRA = [[1, 1, 1], ["a"], ["a", 1], [1, 1.0], [1, True], [0, False], [[1], [1]], [{"a": 1, "b": 2}, {"b": 2, "a": 1}],
+ARR_EXTRA = [[[{"a": 1, "b": 2}], [{"b": 2, "a": 1}]], [[{"a": 1, "b": 2}], [{"b": 2, "a": 2}]], [{"k": [{"a": 1, "b": 2}]}, {"k": [{"b": 2, "a": 1}]}], [1, 1, 1], ["a"], ["a", 1], [1, 1.0], [1, True], [0, False], [[1], [1]], [{"a": 1, "b": 2}, {"b": 2, "a": 1}],
              [1, "a", "a"], [[1]]]
 OBJ_EXTRA = [{"a": "x"}, {"ab": 1}, {"a": 1, "b": 1, "c": 1}, {"a": None}, {"a": {"a": 1}}, {"a": {"a": "x"}}, {"b": "x", "c": 1}]
-EQ_EXTRA = [False, 0.0, [1.0], {"a": 1.0}, "1", {"b": "x", "a": 1}, [None], 1e300]
+EQ_EXTRA = [[{"b": 2, "a": 1}], [{"a": 1, "b": 2}], [[{"b": 2, "a": 1}], 1], {"k": [{"b": 2, "a": 1}]}, [{"a": 1, "b": 3}], False, 0.0, [1.0], {"a": 1.0}, "1", {"b": "x", "a": 1}, [None], 1e300]
 TYPE_EXTRA = [False, -0.0, 3.0, 1e300, 1e19, 0.5]
 UE_INST = [{}, {"a": 1}, {"a": 1, "b": "x"}, {"b": 1}, {"a": "x"}, {"ab": 1}, {"a": 1, "b": 1, "c": 1}, {"b": "x", "c": 1}, {"c": 1}, 1, [1]]
 UX_INST = [{"a": {"b": 1}, "b": 2}, {"a": {"b": 1}}, {"a": {"b": 1}, "b": "x"}, {"a": {}, "b": 2}, {"a": 1, "b": 2}, {"b": 2}, {"a": {"b": 1, "c": 1}, "c": 1},
